@@ -2,7 +2,10 @@
 the Coq worklist model replaying the same choices, each yielded order checked by
 the Coq `topo_sortedb`; (b) fault injection at every applicable site: the real
 sanity_check / iterator / simulator constructors must reject with a PyRTL error
-and agree with the Coq model of sanity_check; (c) API-built designs accepted."""
+and agree with the Coq model of sanity_check; (c) API-built designs accepted and
+satisfying the hypotheses of the iterator completeness theorem; (d) the regenerated
+guard list Gen/SanityNet.check (py/genfrag_C10.py) names, for every net of every
+faulted design, the very `raise` the real sanity_check_net hits."""
 import contextlib
 import io
 import os
@@ -16,14 +19,25 @@ RULE = ('schedules: random API-built designs x seeded worklist tie-breaks (hook 
         '-> real yield order == Coq worklist model on the same choices, and topological by the Coq checker; '
         'faults: each of 16 fault classes injected at every applicable site of each design by editing '
         'block.logic / wire sets directly; distinct by (design, fault, site) or (design, schedule seed); '
-        'non-trivial when the design has >= 4 nets')
+        'non-trivial when the design has >= 4 nets; every net of every faulted design is also run through the '
+        'real sanity_check_net and the raise it hits (by source line) compared with Gen/SanityNet.check; every '
+        'API-built design is checked against the hypotheses of the completeness theorem')
 IMPORTS = 'From PyRTL Require Import Netlist.Iter Netlist.Sanity.'
-COQ_TARGETS = ['theories/Netlist/Sanity.vo']
+IMPORTS_GEN = 'From PyRTL Require Import Netlist.Iter Netlist.Sanity Gen.SanityNet.'
+COQ_TARGETS = ['theories/Netlist/Sanity.vo', 'theories/Gen/SanityNet.vo']
 ASSUMPTIONS = ['faults that the deep embedding cannot represent (op_param of wrong Python type, memid '
-               'mismatch) are checked against the implementation only',
+               'mismatch) are checked against the implementation only; the corresponding guards of sanity_check_net '
+               '(raises 1-3, 8, 19-21, 23-28, 38) are translated but proved never to fire on an embedded net, so '
+               'deleting them does not break C10_source_guards_agree_with_model -- only the fault injection sees them',
+               'iterator completeness needs the side condition "no combinational net drives a Register" '
+               '(Accepted.comb_dest_not_reg): PyRTL itself accepts or rejects such a block depending on set order '
+               '(C10_example_comb_driven_register); the construction API cannot build one; evaluated on every '
+               'API-built design together with sanity_block and a dependency order (the real yield order)',
                'the hook replaces set.pop() order by a seeded choice; CPython set order itself is one such schedule']
-TRUSTED = ['Netlist/Sanity.v (hand model of sanity_check), Netlist/Iter.v (hand model of Block.__iter__), '
-           'topo_sortedb as the definition of dependency order']
+TRUSTED = ['Netlist/Sanity.v (hand model of sanity_check; its per-net part sanity_net is proved equal to the guard list '
+           'regenerated from Block.sanity_check_net), Netlist/Iter.v (hand model of Block.__iter__), '
+           'topo_sortedb as the definition of dependency order',
+           'py/genfrag_C10.py: net-shape record, mapping of Python type tests, shape_of (fixed text in Gen/SanityNet.v)']
 
 
 class NameDump(nlx.Dump):
@@ -49,6 +63,47 @@ class _ByName(object):
 
     def __getitem__(self, w):
         return self.byname[w.name]
+
+
+def net_raise_ordinal(block, net, line2ord):
+    """ordinal (source order) of the raise of sanity_check_net the net hits; 0 = accepted;
+    -1 = a PyRTL error raised elsewhere; -2 = some other exception"""
+    try:
+        block.sanity_check_net(net)
+    except (pyrtl.PyrtlError, pyrtl.PyrtlInternalError) as e:
+        tb = e.__traceback__
+        line = None
+        while tb is not None:
+            if tb.tb_frame.f_code.co_name == 'sanity_check_net':
+                line = tb.tb_lineno
+            tb = tb.tb_next
+        return line2ord.get(line, -1)
+    except Exception:
+        return -2
+    return 0
+
+
+def wire_classes_disjoint():
+    """the kind tests of Gen/SanityNet.v read isinstance(w, Input/Const/Output/Register) as a partition"""
+    cl = [pyrtl.Input, pyrtl.Output, pyrtl.Const, pyrtl.Register]
+    return all(issubclass(a, pyrtl.WireVector) for a in cl) and \
+        not any(issubclass(a, b) for a in cl for b in cl if a is not b)
+
+
+def gen_guards(ctx):
+    """(usable, line -> ordinal) for the regenerated guard list"""
+    try:
+        import genfrag_C10
+        _, src = genfrag_C10.net_guards(os.environ.get('PYRTL_REPO', '/repo'))
+        line2ord = {line: k for k, line, _ in src}
+        r = ctx.coq_eval(['n_raises'], IMPORTS_GEN, tag='c10probe')
+        if r != [len(src)]:
+            raise RuntimeError('Gen/SanityNet.v is stale: n_raises=%r, source has %d' % (r, len(src)))
+        return True, line2ord
+    except Exception as e:
+        ctx.notes.append('Gen/SanityNet unavailable (%s): the raise-ordinal tie is skipped, the search still runs'
+                         % str(e)[:300])
+        return False, {}
 
 
 def real_accepts(block):
@@ -339,6 +394,9 @@ FAULTS = ['two_drivers', 'read_never_driven', 'register_never_driven', 'declared
           'width_mismatch', 'mux_select_width', 'select_param_oob', 'dest_too_wide', 'param_not_none',
           'input_const_dest', 'output_arg', 'duplicate_name', 'comb_cycle', 'memid_mismatch']
 UNREPRESENTABLE = {'param_not_none', 'memid_mismatch'}
+# the dump identifies wires by NAME (that is how duplicate names become visible to the model), so under this
+# fault the per-net shapes of the two homonymous wires are merged: no per-net raise-ordinal comparison
+ORDINAL_TIE_SKIP = {'duplicate_name'}
 
 
 def build(ctx, i):
@@ -352,6 +410,10 @@ def run(ctx):
     sites_per_fault = 2 if ctx.tier == 'quick' else 5
     exprs = []
     meta = []
+    gen_ok, line2ord = gen_guards(ctx)
+    if not wire_classes_disjoint():
+        ctx.model_mismatch('Input/Output/Const/Register are no longer pairwise unrelated WireVector subclasses: '
+                           'the kind tests of Gen/SanityNet.v do not model isinstance', {})
     # ---- (a)+(c): schedules and acceptance of API-built designs
     for i in range(ndesigns):
         d = build(ctx, i)
@@ -373,6 +435,9 @@ def run(ctx):
         index = {id(n): k for k, n in enumerate(logic)}
         dump = NameDump(block, logic)
         nl = dump.coq()
+        if gen_ok:
+            exprs.append('hyp_case %s' % nl)
+            meta.append(('hyp', i))
         for s in range(nseeds):
             if s == 0:
                 order, choices = list(block), None   # CPython's own set order
@@ -428,8 +493,15 @@ def run(ctx):
                     logic = list(block.logic)
                     try:
                         dump = NameDump(block, logic)
-                        exprs.append('sanity_case %s []' % dump.coq())
-                        meta.append(('sanity', i, fault, ok, rep))
+                        if gen_ok and fault not in ORDINAL_TIE_SKIP:
+                            real_ord = [net_raise_ordinal(block, n, line2ord) for n in logic]
+                            for k in real_ord:
+                                ctx.count('raise_ordinal_hit', k)
+                            exprs.append('let nl := %s in (sanity_case nl [], check_case nl)' % dump.coq())
+                            meta.append(('sanity', i, fault, ok, rep, real_ord, [str(n) for n in logic]))
+                        else:
+                            exprs.append('(sanity_case %s [], (@nil Z))' % dump.coq())
+                            meta.append(('sanity', i, fault, ok, rep, None, None))
                     except Exception as e:
                         ctx.notes.append('dump failed for fault %s: %r' % (fault, e))
     imports = IMPORTS + '''
@@ -437,6 +509,8 @@ Definition order_case (nl : netlist) (idx : list Z) : list Z :=
   let l := map (fun i => nth (Z.to_nat i) (nets nl) (mkNet OpW [] 0)) idx in
   [b2z (topo_sortedb nl l); b2z (is_perm_idx (map Z.to_nat idx) (length (nets nl)))].
 '''
+    if gen_ok:
+        imports = imports.replace(IMPORTS, IMPORTS_GEN)
     results = ctx.coq_eval(exprs, imports, tag='c10', shard=80, jobs=12)
     for m, r in zip(meta, results):
         if m[0] == 'order':
@@ -453,12 +527,26 @@ Definition order_case (nl : netlist) (idx : list Z) : list Z :=
             if r[0] != [0] or r[1] != real_idx:
                 ctx.model_mismatch('Netlist/Iter.v replaying the hook choices yields a different order than Block.__iter__',
                                    {'seed': ctx.seed, 'design': i, 'schedule_seed': s, 'real': real_idx, 'model': r})
+        elif m[0] == 'hyp':
+            _, i = m
+            ctx.count('completeness_hypotheses_hold', r == [1, 1, 1])
+            if r != [1, 1, 1]:
+                ctx.model_mismatch('an API-built design does not satisfy the netlist hypotheses of the iterator '
+                                   'completeness theorem [sanity_block, comb_dest_not_reg, no generated guard fires] = %s'
+                                   % r, {'seed': ctx.seed, 'design': i})
         else:
-            _, i, fault, ok, rep = m
-            model_accept = (r[0] == 1 and r[1] == 0)
+            _, i, fault, ok, rep, real_ord, netstrs = m
+            sc, gen_ord = r
+            model_accept = (sc[0] == 1 and sc[1] == 0)
             if ok is not None and model_accept != ok:
                 ctx.model_mismatch('Netlist/Sanity.v and Block.sanity_check disagree on a faulted design '
                                    '(model accepts=%s, real accepts=%s)' % (model_accept, ok), rep)
+            if real_ord is not None and list(gen_ord) != real_ord:
+                bad = [(k, netstrs[k], real_ord[k], gen_ord[k]) for k in range(min(len(real_ord), len(gen_ord)))
+                       if real_ord[k] != gen_ord[k]][:3]
+                ctx.model_mismatch('Gen/SanityNet.check (regenerated guard list) and the real sanity_check_net hit different '
+                                   'raises on a net of a faulted design: (index, net, real ordinal, generated ordinal) = %r'
+                                   % (bad,), rep)
 
 
 def replay(ctx, data):
